@@ -4,13 +4,23 @@ end-around-carry accumulator of `Headers::check_sum` and the 16-bit one's-comple
 the standard algorithm. -/
 namespace Pelite.Pe
 
+/-- the relation kept between the 32-bit accumulator of `check_sum` and the 16-bit accumulator of the
+standard algorithm: same residue mod 65535, both zero or both non-zero -/
 def CsRel (a32 a16 : Nat) : Prop :=
   a32 < 4294967296 ∧ a16 < 65536 ∧ a32 % 65535 = a16 % 65535 ∧ (a32 = 0 ↔ a16 = 0)
 
 theorem csRel_zero : CsRel 0 0 := by unfold CsRel; omega
 
+/-- one dword step = two word steps -/
 theorem csRel_step {a32 a16 lo hi : Nat} (h : CsRel a32 a16) (hlo : lo < 65536) (hhi : hi < 65536) :
     CsRel (csumStep a32 (lo + 65536 * hi)) (foldCarry16 (foldCarry16 (a16 + lo) + hi)) := by
+  unfold CsRel csumStep foldCarry16 at *
+  dsimp only
+  split <;> omega
+
+/-- one dword step with a zero high word = one word step -/
+theorem csRel_step1 {a32 a16 lo : Nat} (h : CsRel a32 a16) (hlo : lo < 65536) :
+    CsRel (csumStep a32 (lo + 65536 * 0)) (foldCarry16 (a16 + lo)) := by
   unfold CsRel csumStep foldCarry16 at *
   dsimp only
   split <;> omega
@@ -20,26 +30,36 @@ theorem csRel_skip {a32 a16 : Nat} (h : CsRel a32 a16) :
   unfold CsRel foldCarry16 at *
   omega
 
+theorem byteAt_of_ge (b : Bytes) (i : Nat) (h : b.size ≤ i) : byteAt b i = 0 := by
+  unfold byteAt
+  simp [Array.getD, Nat.not_lt.2 h]
+
+theorem le16_of_ge (b : Bytes) (i : Nat) (h : b.size ≤ i) : le16 b i = 0 := by
+  unfold le16
+  rw [byteAt_of_ge b i h, byteAt_of_ge b (i + 1) (by omega)]
+
 theorem le32_eq_le16 (b : Bytes) (i : Nat) : le32 b i = le16 b i + 65536 * le16 b (i + 2) := by
   unfold le32 le16
   have : i + 2 + 1 = i + 3 := rfl
   rw [this]; omega
 
-theorem csRel_loop (b : Bytes) (pos n : Nat) (hn : b.size / 2 = 2 * n) :
+/-- `fuel` dwords against `2 * fuel` words, leaving the last `t` words of the word loop -/
+theorem csRel_loop (b : Bytes) (pos n t : Nat) (hn : (b.size + 1) / 2 = 2 * n + t) :
     ∀ fuel a32 a16, fuel ≤ n → CsRel a32 a16 →
-      CsRel (csumLoop b pos n fuel a32) (stdSum16 b (2 * pos) (2 * fuel) a16) := by
+      ∃ a16', CsRel (csumLoop b pos n fuel a32) a16' ∧
+        stdSum16 b (2 * pos) (2 * fuel + t) a16 = stdSum16 b (2 * pos) t a16' := by
   intro fuel
   induction fuel with
-  | zero => intro a32 a16 _ h; simpa [csumLoop, stdSum16] using h
+  | zero => intro a32 a16 _ h; exact ⟨a16, by simpa [csumLoop] using h, by simp⟩
   | succ fuel ih =>
     intro a32 a16 hf h
-    have e2 : 2 * (fuel + 1) = (2 * fuel + 1) + 1 := by omega
+    have e2 : 2 * (fuel + 1) + t = (2 * fuel + t + 1) + 1 := by omega
     rw [e2]
     simp only [stdSum16, csumLoop]
     apply ih _ _ (by omega)
     generalize hi : n - (fuel + 1) = i
-    have i1 : b.size / 2 - (2 * fuel + 1 + 1) = 2 * i := by omega
-    have i2 : b.size / 2 - (2 * fuel + 1) = 2 * i + 1 := by omega
+    have i1 : (b.size + 1) / 2 - (2 * fuel + t + 1 + 1) = 2 * i := by omega
+    have i2 : (b.size + 1) / 2 - (2 * fuel + t + 1) = 2 * i + 1 := by omega
     rw [i1, i2]
     by_cases hp : i = pos
     · have c1 : (2 * i = 2 * pos ∨ 2 * i = 2 * pos + 1) := by omega
@@ -53,6 +73,44 @@ theorem csRel_loop (b : Bytes) (pos n : Nat) (hn : b.size / 2 = 2 * n) :
       have j2 : 2 * (2 * i + 1) = 4 * i + 2 := by omega
       rw [j1, j2]
       exact csRel_step h (le16_lt _ _) (le16_lt _ _)
+
+/-- the remaining 1–3 bytes: the tail dword of `check_sum` against the last one or two words -/
+theorem csRel_tail (b : Bytes) (pos : Nat) (hp : pos ≠ b.size / 4 ∨ b.size % 4 = 0) {a32 a16 : Nat} (h : CsRel a32 a16) :
+    CsRel (if b.size % 4 ≠ 0 then csumStep a32 (le32 b (4 * (b.size / 4))) else a32)
+      (stdSum16 b (2 * pos) ((b.size + 1) / 2 - 2 * (b.size / 4)) a16) := by
+  generalize hn : b.size / 4 = n at *
+  have hr : b.size % 4 = 0 ∨ b.size % 4 = 1 ∨ b.size % 4 = 2 ∨ b.size % 4 = 3 := by omega
+  rcases hr with hr | hr | hr | hr
+  · have t0 : (b.size + 1) / 2 - 2 * n = 0 := by omega
+    rw [t0, if_neg (by omega)]
+    simpa [stdSum16] using h
+  · have t1 : (b.size + 1) / 2 - 2 * n = 0 + 1 := by omega
+    rw [t1, if_pos (by omega)]
+    simp only [stdSum16]
+    have i1 : (b.size + 1) / 2 - (0 + 1) = 2 * n := by omega
+    have c1 : ¬ (2 * n = 2 * pos ∨ 2 * n = 2 * pos + 1) := by omega
+    have j1 : 2 * (2 * n) = 4 * n := by omega
+    rw [i1, if_neg c1, j1, le32_eq_le16, le16_of_ge b (4 * n + 2) (by omega)]
+    exact csRel_step1 h (le16_lt _ _)
+  · have t1 : (b.size + 1) / 2 - 2 * n = 0 + 1 := by omega
+    rw [t1, if_pos (by omega)]
+    simp only [stdSum16]
+    have i1 : (b.size + 1) / 2 - (0 + 1) = 2 * n := by omega
+    have c1 : ¬ (2 * n = 2 * pos ∨ 2 * n = 2 * pos + 1) := by omega
+    have j1 : 2 * (2 * n) = 4 * n := by omega
+    rw [i1, if_neg c1, j1, le32_eq_le16, le16_of_ge b (4 * n + 2) (by omega)]
+    exact csRel_step1 h (le16_lt _ _)
+  · have t2 : (b.size + 1) / 2 - 2 * n = 0 + 1 + 1 := by omega
+    rw [t2, if_pos (by omega)]
+    simp only [stdSum16]
+    have i1 : (b.size + 1) / 2 - (0 + 1 + 1) = 2 * n := by omega
+    have i2 : (b.size + 1) / 2 - (0 + 1) = 2 * n + 1 := by omega
+    have c1 : ¬ (2 * n = 2 * pos ∨ 2 * n = 2 * pos + 1) := by omega
+    have c2 : ¬ (2 * n + 1 = 2 * pos ∨ 2 * n + 1 = 2 * pos + 1) := by omega
+    have j1 : 2 * (2 * n) = 4 * n := by omega
+    have j2 : 2 * (2 * n + 1) = 4 * n + 2 := by omega
+    rw [i1, i2, if_neg c1, if_neg c2, j1, j2, le32_eq_le16]
+    exact csRel_step h (le16_lt _ _) (le16_lt _ _)
 
 theorem csRel_final {a32 a16 : Nat} (h : CsRel a32 a16) :
     (a32 % 65536 + a32 / 65536 + (a32 % 65536 + a32 / 65536) / 65536) % 65536 =
@@ -69,15 +127,24 @@ theorem csRel_final {a32 a16 : Nat} (h : CsRel a32 a16) :
   · by_cases hc2 : c1 < 65535 <;> by_cases hc3 : a16 < 65535 <;> omega
   · by_cases hc3 : a16 < 65535 <;> omega
 
-
-theorem checkSum_std (v : View) (h4 : v.img.bytes.size % 4 = 0) (hl : eLfanew v.img.bytes % 4 = 0) :
+/-- general form: the tail dword (if any) is not the CheckSum dword -/
+theorem checkSum_std_general (v : View) (hl : eLfanew v.img.bytes % 4 = 0)
+    (hp : (eLfanew v.img.bytes + 24 + 64) / 4 ≠ v.img.bytes.size / 4 ∨ v.img.bytes.size % 4 = 0) :
     v.checkSum = stdPeChecksum v.img.bytes := by
   unfold View.checkSum stdPeChecksum View.b
   dsimp only
-  have hn : v.img.bytes.size / 2 = 2 * (v.img.bytes.size / 4) := by omega
   have hs : (eLfanew v.img.bytes + 24 + 64) / 2 = 2 * ((eLfanew v.img.bytes + 24 + 64) / 4) := by omega
-  have := csRel_loop v.img.bytes ((eLfanew v.img.bytes + 24 + 64) / 4) (v.img.bytes.size / 4) hn
-    (v.img.bytes.size / 4) 0 0 (Nat.le_refl _) csRel_zero
-  rw [hs, hn, csRel_final this]
+  have hn : (v.img.bytes.size + 1) / 2 =
+      2 * (v.img.bytes.size / 4) + ((v.img.bytes.size + 1) / 2 - 2 * (v.img.bytes.size / 4)) := by omega
+  obtain ⟨a16, hrel, heq⟩ := csRel_loop v.img.bytes ((eLfanew v.img.bytes + 24 + 64) / 4)
+    (v.img.bytes.size / 4) _ hn (v.img.bytes.size / 4) 0 0 (Nat.le_refl _) csRel_zero
+  have ht := csRel_tail v.img.bytes _ hp hrel
+  rw [← hn] at heq
+  rw [hs, heq, csRel_final ht]
+
+theorem checkSum_std (v : View) (hl : eLfanew v.img.bytes % 4 = 0)
+    (hpos : eLfanew v.img.bytes + 24 + 64 + 4 ≤ v.img.bytes.size) :
+    v.checkSum = stdPeChecksum v.img.bytes :=
+  checkSum_std_general v hl (by omega)
 
 end Pelite.Pe
